@@ -6,6 +6,7 @@ pub mod report;
 pub mod print;
 pub mod refeval;
 pub mod vfn;
+pub mod expand;
 pub mod families;
 pub mod gen;
 pub mod harness;
